@@ -425,3 +425,128 @@ pub fn cmd_crash(t: &mut Toks, root: &std::path::Path, line: &str) -> String {
     let segs = run_ops(&mut h, t, ";");
     format!("crash child={} reopen=ok | {}", how, segs.join(" | "))
 }
+
+// ---------------------------------------------------------------- references (C15)
+static GROWTHS: AtomicU64 = AtomicU64::new(0);
+
+/// `refs L<names> n:<threads> ; store ... ; store ...` - takes a reference to every stored event (by
+/// offset and by id) and after every further store compares the ADDRESS of a fresh lookup with the
+/// recorded one (a stale reference is never dereferenced) and, when equal, the bytes.
+pub fn cmd_refs(t: &mut Toks, root: &std::path::Path) -> String {
+    let names = t.list(&mut |t| t.b());
+    let threads = t.n() as usize;
+    GROWTHS.store(0, Ordering::SeqCst);
+    pocket_db::verif::install(Box::new(|name| {
+        if name == "append:resized" {
+            let _ = GROWTHS.fetch_add(1, Ordering::SeqCst);
+        }
+    }));
+    let h = Hist::new(names, root);
+    let st = h.store.as_ref().unwrap();
+    struct Ref {
+        off: u64,
+        id: [u8; 32],
+        addr: usize,
+        copy: Vec<u8>,
+        growths_seen: u64,
+        dead: bool,
+    }
+    let mut refs: Vec<Ref> = Vec::new();
+    let (mut moved_growth, mut moved_nogrowth, mut changed, mut checks, mut stores, mut byid_diff) = (0u64, 0u64, 0u64, 0u64, 0u64, 0u64);
+    let mut events: Vec<OwnedEvent> = Vec::new();
+    while t.i < t.a.len() {
+        let sep = t.next();
+        assert_eq!(sep, ";");
+        let op = t.next();
+        assert_eq!(op, "store");
+        let p = p_event(t);
+        if let Ok(ev) = build_event(&p) {
+            events.push(ev);
+        }
+    }
+    let check = |refs: &mut Vec<Ref>, moved_growth: &mut u64, moved_nogrowth: &mut u64, changed: &mut u64, checks: &mut u64, byid_diff: &mut u64| {
+        let g = GROWTHS.load(Ordering::SeqCst);
+        for r in refs.iter_mut() {
+            if r.dead {
+                continue;
+            }
+            let fresh = match st.get_event_by_offset(r.off) {
+                Ok(e) => e,
+                Err(_) => {
+                    *changed += 1;
+                    r.dead = true;
+                    continue;
+                }
+            };
+            *checks += 1;
+            let a = fresh.as_bytes().as_ptr() as usize;
+            if a != r.addr {
+                if g > r.growths_seen {
+                    *moved_growth += 1;
+                } else {
+                    *moved_nogrowth += 1;
+                }
+                // the old reference is stale now: re-take it at the new address
+                r.addr = a;
+            }
+            if fresh.as_bytes() != &r.copy[..] {
+                *changed += 1;
+                r.dead = true;
+            }
+            // the by-id path must lead to the same place
+            if let Ok(Some(e2)) = st.get_event_by_id(Id::from_bytes(r.id)) {
+                if e2.as_bytes().as_ptr() as usize != a {
+                    *byid_diff += 1;
+                }
+            }
+            r.growths_seen = g;
+        }
+    };
+    if threads <= 1 {
+        for ev in events.iter() {
+            if let Ok(off) = st.store_event(ev) {
+                stores += 1;
+                check(&mut refs, &mut moved_growth, &mut moved_nogrowth, &mut changed, &mut checks, &mut byid_diff);
+                let e = st.get_event_by_offset(off).unwrap();
+                refs.push(Ref { off, id: arr32(ev.id().as_slice()), addr: e.as_bytes().as_ptr() as usize, copy: e.as_bytes().to_vec(), growths_seen: GROWTHS.load(Ordering::SeqCst), dead: false });
+            }
+        }
+    } else {
+        // first half sequentially (references taken), second half from other threads
+        let half = events.len() / 2;
+        for ev in events[..half].iter() {
+            if let Ok(off) = st.store_event(ev) {
+                stores += 1;
+                let e = st.get_event_by_offset(off).unwrap();
+                refs.push(Ref { off, id: arr32(ev.id().as_slice()), addr: e.as_bytes().as_ptr() as usize, copy: e.as_bytes().to_vec(), growths_seen: GROWTHS.load(Ordering::SeqCst), dead: false });
+            }
+        }
+        let rest = &events[half..];
+        let n = std::sync::atomic::AtomicU64::new(0);
+        std::thread::scope(|s| {
+            for th in 0..threads {
+                let n = &n;
+                s.spawn(move || {
+                    for (i, ev) in rest.iter().enumerate() {
+                        if i % threads == th && st.store_event(ev).is_ok() {
+                            let _ = n.fetch_add(1, Ordering::SeqCst);
+                        }
+                    }
+                });
+            }
+        });
+        stores += n.load(Ordering::SeqCst);
+        check(&mut refs, &mut moved_growth, &mut moved_nogrowth, &mut changed, &mut checks, &mut byid_diff);
+    }
+    pocket_db::verif::clear();
+    format!(
+        "refs stores={} growths={} checks={} moved_after_growth={} moved_without_growth={} bytes_changed={} byid_other_address={}",
+        stores,
+        GROWTHS.load(Ordering::SeqCst),
+        checks,
+        moved_growth,
+        moved_nogrowth,
+        changed,
+        byid_diff
+    )
+}
